@@ -27,24 +27,36 @@ MANIFEST = {
                      "Rcount, value and deadline within one unit + 1 s. The real code is bound to it twice: TLC-generated and seeded histories are run on a "
                      "real leader with a back-dated virtual clock, stopped at quiescent points and started again on the same files; TLC validates every "
                      "recorded trace against MonAof (the statement's own definition of 'persisted', computed from observed requests and hold snapshots) "
-                     "and replays the decoded files with the model's Recover operator (refinement).",
+                     "and replays the decoded files with the model's Recover operator (refinement). Bursts (spec/AofQueue.tla: value frames are handed to "
+                     "the log by reference and copied later) run several value operations on a key while the records of the earlier ones are still queued; "
+                     "the stop / start after them is judged like every other.",
                 note="trusted: the harness' own 64-byte record decoder, the in-package hold snapshot, the back-dating of the first instance's clock "
-                     "(outages of 2..60 s), virtual-clock sweeps; millisecond-unit expiries are not driven; second generations run without clock ticks"),
+                     "(outages of 2..60 s), virtual-clock sweeps; millisecond-unit expiries are not driven; second generations run without clock ticks; "
+                     "bursts hold ALL channel goroutines back (their wake-up token is withheld), not single ones"),
     "C08": dict(level="model_checking", design="5/C08", engine="F",
                 technique="TLC: AofLog crash model + enumeration of every torn-write image of the real newest append file, judged by a TLA+ monitor",
                 text="TLC checks on the model that a log cut at any field boundary of its last records (and its value file cut consistently) recovers a "
                      "whole-record prefix, and that appends after the restart are recovered by the next one. On the real code every byte offset of the last "
                      "two records, the 12 header bytes and the value-file offsets around each frame boundary are cut, each image is started by the real code "
                      "(child process, panics and hangs are outcomes), and the TLA+ monitor demands membership in the set of states the same code recovers from "
-                     "the whole-record prefixes; a second epoch and a third start follow on a share of the images.",
+                     "the whole-record prefixes; a second epoch and a third start follow on a share of the images. Records are handed to the log writer by "
+                     "reference (spec/AofQueue.tla, exhaustive: every frame written is the value of its record, every cut of the value file parses to a record "
+                     "prefix; refuted when APPEND extends the live buffer in place): bursts of requests run on the real code while the channel goroutines are "
+                     "held back, the monitor computes the value every record describes with the register interpreter of C15 (ValueReg!Apply) and demands it "
+                     "byte for byte of the value file, and of the value recovered from every whole-record prefix / torn image of the burst's records.",
                 note="trusted: as C07; crash images are synthesized by truncation of copies (the flush hooks fix the syscall boundaries: records first, then values); "
-                     "only the newest append file is cut"),
+                     "only the newest append file is cut; the value a record describes is computed for SET/UNSET/INCR/APPEND/SHIFT/PUSH/POP on keys used by bursts "
+                     "only (PIPELINE / EXECUTE frames and requests the interpreter leaves open are not judged); the replication ring keeps the same references "
+                     "and is not observed here"),
     "C16": dict(level="model_checking", design="5/C16", engine="F",
                 technique="TLC: AofLog compaction model with a crash after every step + recovery of every real compaction step image against its reference directory",
                 text="TLC checks on the model that at every program point of a compaction (tmp written, each removal, each rename) recovery equals recovery from "
                      "the replaced files. On the real code the aof.fs hooks copy the directory after every file-system step of every compaction (size threshold, "
                      "admin command, start-up; appends continuing from inside the hooks); each image and its reference directory (the replaced input files + "
-                     "whatever else the image holds) are started by the real code and compared by the TLA+ monitor.",
+                     "whatever else the image holds) are started by the real code and compared by the TLA+ monitor: same holds, depths, values, and DEADLINES - "
+                     "exactly for seconds-unit holds (a replayed deadline is CommandTime + ExpriedTime + 1 whatever the second of the start), within the minute "
+                     "the start fell into for minute-unit holds. The model and the histories include value-less deadline updates by holders (update flag; "
+                     "lengthening and shortening, both units, at ages 0..121 s); TLC refutes C16_Steps when the filter's tolerance is one second too strict.",
                 note="trusted: as C07; the reference directory is assembled by the harness from the image taken at 'tmp-written'; start-up compactions are observed "
                      "both free-running (as LoadAndInit starts them) and held until the replay has drained"),
 }
@@ -115,6 +127,12 @@ def random_histories(prop, tier, seed):
     if prop == "C07":
         # configured delays above 1 s (finding A11 lives there) on a small share
         scs += [gen_aof.gen_history(seed, 100000 + i, kind, aoftime=random.Random(seed * 31 + i).choice([2, 3, 5])) for i in range(max(4, n // 16))]
+    # bursts: requests run while the records of the earlier ones are still queued (value frames handed to the log by reference)
+    nb = {"C07": (10, 300), "C08": (14, 400), "C16": (0, 0)}[prop][0 if quick else 1]
+    scs += [gen_aof.gen_burst(seed, i, kind) for i in range(nb)]
+    if prop == "C16":
+        # value-less deadline updates of persisted holds (both directions, both units, different ages), then compactions
+        scs += [gen_aof.gen_update(seed, i, kind) for i in range(20 if quick else 600)]
     return scs
 
 # ------------------------------------------------------------------ self-test (binding demonstration)
@@ -157,6 +175,24 @@ def corrupt(prop, lines, badrel):
                 if far:
                     far[0]["holds"][0]["cnt"] += 7
                     return dump(), f"Count of a hold recovered from the crash image cut at {e['x']}/{e['y']} changed by 7", i + 1
+    if prop == "C08b":
+        # a value file the burst clause accepted: one byte of a frame that the burst appended is changed
+        for i, e in enumerate(evs):
+            if e["e"] == "bdisk" and not e["lost"] and (i + 1) not in badrel:
+                for f in e["files"]:
+                    if len(f["dbytes"]) >= 7 and any(r["has"] for r in f["recs"]):
+                        f["dbytes"][6] = (f["dbytes"][6] + 1) % 256
+                        return dump(), f"byte 6 of the value bytes the burst appended to {f['name']}.dat changed", i + 1
+    if prop == "C16b":
+        # the compacted directory recovers a seconds-unit hold with a deadline ONE second off
+        for i, e in enumerate(evs):
+            if e["e"] == "rec" and e.get("role") == "cptimg" and e.get("final") and e["ok"] and (i + 1) not in badrel:
+                for k in e["keys"]:
+                    for h in k["holds"]:
+                        if (h["ef"] & 0x4440) == 0 and h["exp"] >= 0 and h["exp"] - e["rnow"] > 130:
+                            h["exp"] += 1
+                            return dump(), (f"deadline of the hold db={k['db']} key={k['key']} lid={h['lid']} recovered from the compacted directory moved by 1 s "
+                                            f"({e.get('trigger')} compaction)"), i + 1
     if prop == "C16":
         # the final image of a compaction loses a key
         for i, e in enumerate(evs):
@@ -168,11 +204,12 @@ def corrupt(prop, lines, badrel):
                     return dump(), f"key db={far[0]['db']} key={far[0]['key']} deleted from the recovery of the compacted directory ({e.get('trigger')} compaction)", i + 1
     return None
 
-def selftest(prop, traces, workdir, viols):
+def selftest(prop, traces, workdir, viols, variant=None):
     """Corrupt one recovery that the monitor accepted; the monitor must report a violation of `prop` at that very event."""
     badlines = collections.defaultdict(set)
     for v in viols:
         badlines[v["file"]].add(v["line"])
+    tries, last = 0, None
     for tr in traces:
         with open(tr) as fh:
             lines = fh.read().splitlines()
@@ -181,17 +218,23 @@ def selftest(prop, traces, workdir, viols):
                 continue
             name = json.loads(lines[a]).get("name")
             badrel = {ln - a for ln in badlines.get(tr, ()) if a < ln <= b}
-            res = corrupt(prop, lines[a:b], badrel)
+            res = corrupt(variant or prop, lines[a:b], badrel)
             if not res:
                 continue
             cl, desc, rel = res
-            p = os.path.join(workdir, f"selftest_{prop}.ndjson")
+            p = os.path.join(workdir, f"selftest_{variant or prop}.ndjson")
             with open(p, "w") as fh:
                 fh.write("\n".join(cl) + "\n")
-            v2, _, _, _, _ = monitor([p], [prop], os.path.join(workdir, "selftest"))
+            tries += 1
+            v2, _, _, _, _ = monitor([p], [prop], os.path.join(workdir, f"selftest_{variant or prop}_{tries}"))
             mine = [v for v in v2 if v["prop"] == prop and v["line"] == rel]
-            return {"history": name, "corruption": f"event {rel} of the history: " + desc, "rejected": len(mine) > 0, "codes": sorted({v["code"] for v in mine})}
-    return {"corruption": None, "rejected": None}
+            last = {"history": name, "corruption": f"event {rel} of the history: " + desc, "rejected": len(mine) > 0, "codes": sorted({v["code"] for v in mine}),
+                    "candidates_tried": tries}
+            # the added clauses judge only what the monitor could compute (a burst record whose request the register interpreter leaves
+            # open is not judged): a corruption that lands on such a record is not evidence either way - try the next candidate
+            if mine or not variant or tries >= 6:
+                return last
+    return last or {"corruption": None, "rejected": None}
 
 # ------------------------------------------------------------------ model (TLC on spec/AofLog.tla)
 
@@ -251,6 +294,17 @@ def run(prop, tier, seed):
             if not new:
                 raise InfraError("self-test could not be performed: no accepted recovery offered a field to corrupt")
             stest["note"] = "not performed: no accepted recovery of the required shape in this run (violations are reported)"
+        # self-tests of the clauses added for bursts (C08) / exact deadlines after a compaction (C16)
+        stest2 = None
+        if prop in ("C08", "C16"):
+            stest2 = selftest(prop, traces, wd, viols, variant=prop + "b")
+            if stest2["rejected"] is False:
+                raise InfraError(f"self-test failed: the monitor accepted a corrupted trace ({stest2['corruption']})")
+            if stest2["rejected"] is None:
+                new, _ = checklib.classify(prop, [v for v, _ in out.viols])
+                if not new:
+                    raise InfraError("second self-test could not be performed: no accepted burst / compaction image offered a field to corrupt")
+                stest2["note"] = "not performed: nothing of the required shape was accepted in this run (violations are reported)"
         samples = [{"name": sc["name"], "cfg": sc["cfg"], "back": sc.get("back"), "steps": sc["steps"][:8]} for sc in (beh[:1] + rnd[:1])]
         out.coverage = {
             "states": model["states"], "transitions": model["transitions"], "traces_validated_against_impl": len(scs),
@@ -267,12 +321,19 @@ def run(prop, tier, seed):
                              "values_judged": stats.get("valchk", 0), "values_agnostic": stats.get("valskip", 0)},
             "refinement": {"recoveries_replayed_by_AofReplay": stats.get("refined", 0), "skipped_torn_or_second_boundary": stats.get("refskip", 0),
                            "divergences": len(divs), "first_divergences": [{k: d[k] for k in d if k != "file"} for d in divs[:3]]},
-            "selftest": stest, "driver_shards_retried": retried, "histories_aborted_by_driver": [a.get("name") for a in aborts],
+            "bursts": {"requests": stats.get("burst_requests", 0), "requests_agnostic": stats.get("burst_requests_agnostic", 0),
+                       "records_located_in_the_files": stats.get("burst_records", 0), "value_frames_judged_on_disk": stats.get("burst_frames_judged", 0),
+                       "image_values_judged": stats.get("burst_image_values_judged", 0), "bursts_not_located": stats.get("bursts_not_located", 0),
+                       "burst_histories": sum(1 for sc in scs if any(st.get("op") == "burst" for st in sc["steps"]))},
+            "compaction_deadlines": {"holds_compared_exactly": stats.get("cpt_deadlines_exact", 0)},
+            "selftest": stest, "selftest_added_clause": stest2, "driver_shards_retried": retried, "histories_aborted_by_driver": [a.get("name") for a in aborts],
             "evaluations": len(scs), "distinct_nontrivial": len({json.dumps(s["steps"], sort_keys=True) for s in scs}),
             "rule": "one evaluation = one history run on the real code with all its images recovered, validated by the TLA+ monitor; distinct = distinct step sequences",
         }
         out.assumptions = [
-            "engine F is sequential: one driver goroutine, virtual clock of the first instance back-dated by (ticks + 2..40) s, persistence queue drained after every step",
+            "engine F is sequential: one driver goroutine, virtual clock of the first instance back-dated by (ticks + 2..40) s, persistence queue drained after every step "
+            "- except inside a burst step, where the channel goroutines are parked and their wake-up token is withheld until the last request of the burst has returned",
+            "burst keys (60..63) are used by bursts only; holds of a burst persist at once and outlive every recovery (1800 / 3600 s)",
             "compactions of the first instance are awaited after every step; requests 'during' a compaction are issued from inside the aof.fs hooks (deterministic interleaving)",
             "start-up compaction: held until the replay has drained, except in the C16 histories marked faithful (free-running, as LoadAndInit starts it; regression of A29, fixed by 15834ac)",
             "recoveries of torn images run in child processes with an 8 s limit per start",
